@@ -38,8 +38,9 @@
 (***************************************************************************)
 EXTENDS Integers, FiniteSets, TLC, Json
 
-CONSTANTS Subs,      \* set of strings: subsystem names
-          Timeouts,  \* set of positive integers: timeouts (in units) Register may be called with
+CONSTANTS Subs1, Timeouts1,  \* subsystem names (strings) and the timeouts (positive integers, in units)
+          Subs2, Timeouts2,  \*   Register may be called with for them; two groups so that a
+                             \*   configuration can give different subsystems different timeouts
           Tick,      \* ticker period in units (500 ms / UnitMs)
           UnitMs,    \* milliseconds per unit (only passed through to the harness)
           Exact      \* see above
@@ -54,6 +55,9 @@ vars == <<status, timeout, timeLeft, readyFlag, phase, pending, sil, decl, obsAl
 
 Max(a, b) == IF a >= b THEN a ELSE b
 Min(a, b) == IF a <= b THEN a ELSE b
+Subs == Subs1 \cup Subs2
+TimeoutsOf(s) == IF s \in Subs1 THEN Timeouts1 ELSE Timeouts2
+Timeouts == UNION {TimeoutsOf(s) : s \in Subs}
 MaxTimeout == CHOOSE t \in Timeouts : \A u \in Timeouts : u <= t
 
 Registered == {s \in Subs : status[s] = "reg"}
@@ -170,7 +174,7 @@ TickProc ==
   /\ act' = [name |-> "Tick"]
   /\ Observe
 
-Next == \/ \E s \in Subs, to \in Timeouts : Register(s, to)
+Next == \/ \E s \in Subs : \E to \in TimeoutsOf(s) : Register(s, to)
         \/ \E s \in Subs : Unregister(s)
         \/ \E s \in Subs, r \in BOOLEAN : Ready(s, r)
         \/ \E d \in 1 .. Tick : Advance(d)
